@@ -29,6 +29,10 @@ def parseOp (l : String) : Option Op :=
   | ["op", "dstart", s] => some (.depsStart (nat! s))
   | ["op", "ddrop", s] => some (.depsDrop (nat! s))
   | ["op", "dfinish", s] => some (.depsFinish (nat! s))
+  | ["op", "cstart", n, k] => some (.candStart (nat! n) (nat! k))
+  | ["op", "cdrop", k] => some (.candDrop (nat! k))
+  | ["op", "copen", n] => some (.candOpen (nat! n))
+  | ["op", "cpoll", k] => some (.candPoll (nat! k))
   | _ => none
 
 def runCache (lines : List String) : List String :=
